@@ -69,7 +69,9 @@ def run(ctx, replay):
         "distinct_nontrivial": sum(s.get("nontrivial", 0) for s in sums + s2),
         "rule": "cases = env blocks (<= MaxEntries entries from the name pool x value pool, names built by expansion, forward references, "
                 "escapes, defaults, required) x 5 runtime envs x prefer x {exact, case-insensitive}, each run with the harness env and with "
-                "internal/env.Env; plus seeded random chains of 5-40 entries. Distinct after de-duplication; non-trivial = non-empty block.",
+                "internal/env.Env; plus seeded random chains of 5-40 entries. By the case: the block as parsed or reached through Set / Delete / "
+                "Replace (tombstones in its storage), and a fifth of the pipelines BARE (nothing but the env block). The probe text sits in a step, "
+                "in agents.queue (before the block) and in notify. Distinct after de-duplication; non-trivial = non-empty block.",
         "exhaustive": True,
         "trace_events_rejected": len(bad),
     }
